@@ -80,10 +80,10 @@ TC_Cfgs == {ConvU(kf, kg, ke, 4, 2, 0) : kf \in K, kg \in K, ke \in K} \cup {Con
            \cup {ConvGenBound(kg, ke) : kg \in {1, 2}, ke \in {1, 2}} \cup {ConvEdrvBound(kg, ke) : kg \in {1, 2}, ke \in {1, 2}}
            \cup {ConvWarm(kf, kg, ke) : kf \in {1, 4}, kg \in {2, 4}, ke \in {1, 2}} \cup {ConvWarmGen(ke) : ke \in {1, 2}}
 TC_On  == ConvCls \cup {"rate", "ratep"}
-TB_Cfgs == {BelU(ke, kr, 2, 0) : ke \in K, kr \in K} \cup {BelU(2, 2, 0, 8)}
-           \cup {BelResBound(ke, kr) : ke \in {1, 2}, kr \in {1, 2}} \cup {BelEdrvBound(kr) : kr \in {1, 4}}
-TH_Cfgs == {HybU(<<kf, kg, ke, kr>>, RHyb, 4, aux, s2, w) : kf \in {2}, kg \in {1, 2}, ke \in {1, 2}, kr \in {1, 2},
-                                                          aux \in {8192, 50000}, s2 \in {0, 1, 2}, w \in BOOLEAN}
+TB_Cfgs == {BelU(ke, kr, 2, 0) : ke \in K, kr \in {1, 4}} \cup {BelU(2, 2, 0, 8)}
+           \cup {BelResBound(ke, 2) : ke \in {1, 2}} \cup {BelEdrvBound(1)}
+TH_Cfgs == {HybU(<<2, kg, 2, 2>>, RHyb, 4, aux, s2, FALSE) : kg \in {1, 2}, aux \in {8192, 50000}, s2 \in {0, 1, 2}}
+           \cup {HybU(<<2, 2, 1, 1>>, RHyb, 4, 8192, s2, TRUE) : s2 \in {0, 1, 2}}
 TH_On  == AllCls \ {"regenm", "dynp"}
 \* depth 4, emitted
 T4C_Cfgs == {ConvU(2, 4, 1, 4, 2, 0), ConvU(1, 2, 4, 2, 0, 8), ConvWarmGen(2)}
